@@ -1,8 +1,195 @@
+import NaijaVerif.Model.Capture
+import NaijaVerif.Gen.Capture
 import NaijaVerif.Driver.Util
-/-! Family `capture` — stub (replaced by the unit that owns this family). -/
+
+/-! Line protocol `capture` (C16), see `harness/src/capture.rs`:
+```
+sc cap=<bytes> poll=<ms> timeout=<ms> out=<c|n|i> err=<c|n|i> reps=<k> hogs=<n> | <child token>...
+      -> allowed <outcome>...     the outcomes `Capture.allowed` admits for this configuration and child;
+                                  an outcome followed by `!` has the shape of finding D-16.
+                                  `timeout` is listed only when the child hangs (`h`): non-hanging
+                                  scenarios carry a timeout far above their own duration.
+                                  `fixed=<0|1>` selects the modelled `join_capture`; the default is
+                                  what the extractor found in /repo (`Gen.Capture.joinAnyFlag`).
+utf8 <hex>  -> valid | invalid    `Capture.validUtf8`
+trace cap=.. chunk=.. pipe=.. out=.. err=.. timeout=.. poll=.. fixed=<0|1> | <child token>... | <label>...
+      -> <outcome> | running | disabled@<i>     run the transition system on a label sequence
+```
+Child tokens: `s<ms>` sleep, `o<n><k>`/`e<n><k>` write n bytes of pattern k (a m g x) to stdout/stderr,
+`p` default SIGPIPE, `x<code>` exit, `k` kill self, `h` hang.
+Labels: `wo<n> we<n> do<n> de<n> po pe end ro re co ce eo ee m t` (child write/drop/sigpipe/end, reader
+read/check/eof, main, tick).
+-/
 namespace NaijaVerif.Driver.CaptureD
+open NaijaVerif NaijaVerif.Capture NaijaVerif.Driver
+
+/-- Byte at offset `off` of a stream under pattern `k` (same table as `pat_byte` in the harness). -/
+def patByte (err : Bool) (k : Char) (off : Nat) : Nat :=
+  match k with
+  | 'a' => (if err then 65 else 97) + off % 26
+  | 'm' => (if err then [0xE2, 0x82, 0xA9] else [0xE2, 0x82, 0xAC])[off % 3]!
+  | 'g' => (if err then [0xF0, 0x9F, 0x98, 0x81] else [0xF0, 0x9F, 0x98, 0x80])[off % 4]!
+  | _ => if err then 0xFE else 0xFF
+
+structure Script where
+  out : Array Nat := #[]
+  err : Array Nat := #[]
+  ending : Ending := .code 0
+  sigpipeDies : Bool := false
+  ok : Bool := true
+
+def Script.tok (sc : Script) (t : String) : Script :=
+  match t.toList with
+  | 's' :: _ => sc
+  | ['p'] => { sc with sigpipeDies := true }
+  | ['k'] => { sc with ending := .signal }
+  | ['h'] => { sc with ending := .never }
+  | 'x' :: rest =>
+      match (String.ofList rest).toNat? with
+      | some c => { sc with ending := .code (c % 256) }
+      | none => { sc with ok := false }
+  | c :: rest =>
+      if c = 'o' ∨ c = 'e' then
+        match rest.getLast?, (String.ofList rest.dropLast).toNat? with
+        | some k, some n =>
+            if k = 'a' ∨ k = 'm' ∨ k = 'g' ∨ k = 'x' then
+              let isErr := c = 'e'
+              let cur := if isErr then sc.err else sc.out
+              let ext := (List.range n).foldl (fun (a : Array Nat) _ => a.push (patByte isErr k (a.size))) cur
+              if isErr then { sc with err := ext } else { sc with out := ext }
+            else { sc with ok := false }
+        | _, _ => { sc with ok := false }
+      else { sc with ok := false }
+  | [] => sc
+
+def parsePol : String → Option Policy
+  | "c" => some .capture
+  | "n" => some .null
+  | "i" => some .inherit
+  | _ => none
+
+/-- `key=value` words into a configuration. -/
+def parseCfg (ws : List String) : Option Cfg :=
+  ws.foldl (fun acc w =>
+    match acc, w.splitOn "=" with
+    | some cfg, [k, v] =>
+        match k with
+        | "cap" => v.toNat?.map (fun n => { cfg with cap := n })
+        | "chunk" => v.toNat?.map (fun n => { cfg with chunk := n })
+        | "pipe" => v.toNat?.map (fun n => { cfg with pipeCap := n })
+        | "poll" => v.toNat?.map (fun n => { cfg with poll := n })
+        | "timeout" => v.toNat?.map (fun n => { cfg with timeout := n })
+        | "out" => (parsePol v).map (fun p => { cfg with polOut := p })
+        | "err" => (parsePol v).map (fun p => { cfg with polErr := p })
+        | "fixed" => v.toNat?.map (fun n => { cfg with fixedJoin := n ≠ 0 })
+        | "reps" | "hogs" => some cfg
+        | _ => none
+    | _, _ => none)
+    (some { cap := 0, chunk := Gen.Capture.chunk, pipeCap := 65536, polOut := .capture,
+            polErr := .capture, timeout := 20000, poll := Gen.Capture.defaultPollMs,
+            fixedJoin := Gen.Capture.joinAnyFlag })
+
+def splitBar (ws : List String) : List (List String) :=
+  ws.foldr (fun w acc =>
+    if w = "|" then [] :: acc
+    else match acc with
+      | cur :: rest => (w :: cur) :: rest
+      | [] => [[w]]) [[]]
+
+def strmName : Strm → String
+  | .out => "out"
+  | .err => "err"
+
+def showOutcome (cfg : Cfg) (plan : Plan) : Outcome → String
+  | .ok st o e =>
+      let d (x : Strm) (v : Option Bytes) : String :=
+        match v with
+        | none => "null"
+        | some b => if b = plan.bytes x then "full"
+                    else if b.length < (plan.bytes x).length ∧ (plan.bytes x).take b.length = b then s!"trunc{b.length}"
+                    else s!"other{b.length}"
+      let c := match st with | some n => toString n | none => "sig"
+      let _ := cfg
+      s!"ok:{c}:{d .out o}:{d .err e}"
+  | .error (.ole x) => s!"ole:{strmName x}"
+  | .error (.badUtf8 x) => s!"badutf8:{strmName x}"
+  | .error .timeout => "timeout"
+
+def planOf (sc : Script) : Plan :=
+  { out := sc.out.toList, err := sc.err.toList, ending := sc.ending, sigpipeDies := sc.sigpipeDies }
+
+def answerSc (cfgWords childWords : List String) : String :=
+  match parseCfg cfgWords with
+  | none => "bad-op"
+  | some cfg =>
+      let sc := childWords.foldl Script.tok {}
+      if !sc.ok then "bad-op" else
+      let plan := planOf sc
+      let hangs := plan.ending = .never
+      let outs := (allowedList cfg plan).filter (fun o => o ≠ .error .timeout ∨ hangs)
+      let d16 := d16Shape cfg plan
+      let strs := outs.map (fun o =>
+        let s := showOutcome cfg plan o
+        if d16 ∧ o = .error (.badUtf8 .out) then s ++ "!" else s)
+      "allowed " ++ " ".intercalate strs
+
+def parseLabel (t : String) : Option Label :=
+  let strm (c : Char) : Option Strm := if c = 'o' then some .out else if c = 'e' then some .err else none
+  match t.toList with
+  | ['m'] => some .main
+  | ['t'] => some .tick
+  | ['e', 'n', 'd'] => some .childEnd
+  | ['r', c] => (strm c).map .rdRead
+  | ['c', c] => (strm c).map .rdCheck
+  | ['e', c] => (strm c).map .rdEof
+  | ['p', c] => (strm c).map .childSigpipe
+  | 'w' :: c :: rest => do
+      let x ← strm c
+      let n ← (String.ofList rest).toNat?
+      pure (.childWrite x n)
+  | 'd' :: c :: rest => do
+      let x ← strm c
+      let n ← (String.ofList rest).toNat?
+      pure (.childDrop x n)
+  | _ => none
+
+def answerTrace (cfgWords childWords labelWords : List String) : String :=
+  match parseCfg cfgWords with
+  | none => "bad-op"
+  | some cfg =>
+      let sc := childWords.foldl Script.tok {}
+      if !sc.ok then "bad-op" else
+      let plan := planOf sc
+      let rec go (s : State) (i : Nat) : List String → String
+        | [] => match s.result with
+            | some r => showOutcome cfg plan r
+            | none => "running"
+        | w :: ws =>
+            match parseLabel w with
+            | none => "bad-op"
+            | some l =>
+                match step cfg plan s l with
+                | some s' => go s' (i + 1) ws
+                | none => s!"disabled@{i}"
+      go (init cfg plan) 0 labelWords
+
+def stepLine (st : Unit) (line : String) : Unit × String :=
+  match words line with
+  | "sc" :: rest =>
+      match splitBar rest with
+      | [cfgW, childW] => (st, answerSc cfgW childW)
+      | _ => (st, "bad-op")
+  | ["utf8", h] =>
+      match unhex h with
+      | some b => (st, if validUtf8 b then "valid" else "invalid")
+      | none => (st, "bad-op")
+  | "trace" :: rest =>
+      match splitBar rest with
+      | [cfgW, childW, labW] => (st, answerTrace cfgW childW labW)
+      | _ => (st, "bad-op")
+  | _ => (st, "bad-op")
 
 def main : IO Unit := do
-  IO.eprintln "family capture: not built yet"
+  loop (← IO.getStdin) (← IO.getStdout) () stepLine
 
 end NaijaVerif.Driver.CaptureD
